@@ -1,8 +1,10 @@
 #!/bin/sh
 # setup_cmd: build everything offline from files on disk (cargo registry cache + /repo + /verif/harness).
 set -eu
+export CARGO_NET_OFFLINE=true
 mkdir -p /verif/target /verif/evidence /verif/replays
 cd /verif/harness
-export CARGO_NET_OFFLINE=true
 cargo build --release --offline
+cd /repo
+CARGO_TARGET_DIR=/verif/target/cli cargo build --release --offline -p typstyle
 echo "setup ok"
